@@ -161,6 +161,24 @@ def gen_queries(rng, index, nq):
             a = rng.choice([0.0, total * rng.uniform(0.0, 1.0), rng.choice(index[:-1]), total])
             if target >= a:
                 qs.append({'op': 'step', 'a': a, 'b': target - a, 'near_end': True})
+    # steps that END EXACTLY on a waypoint's cumulative distance / on the total (a + b evaluated with the same float
+    # addition as the code): from 0, from an earlier waypoint, from inside a leg — flying a track leg by leg
+    def exact_step(a, target):
+        b = target - a
+        for cand in (b, math.nextafter(b, math.inf), math.nextafter(b, -math.inf)):
+            if cand >= 0.0 and a + cand == target:
+                return {'op': 'step', 'a': a, 'b': cand, 'ends_on_waypoint': True}
+        return None
+    for k in range(1, len(index)):
+        if index[k] <= 0.0:
+            continue
+        starts = [0.0, index[k - 1], index[k - 1] + rng.uniform(0.05, 0.95) * (index[k] - index[k - 1])]
+        if k >= 2:
+            starts.append(index[rng.randrange(0, k - 1)])
+        for a in rng.sample(starts, min(len(starts), 3 if len(index) <= 3 else 2)):
+            q_ = exact_step(a, index[k])
+            if q_ is not None:
+                qs.append(q_)
     # strictly inside every short leg (< 1.5 km): location and a step that stays on the leg
     for k in range(len(index) - 1):
         ln = index[k + 1] - index[k]
@@ -562,6 +580,9 @@ def check_tracks(chk: Check, tracks):
         inside = 0.0 <= target <= total
         chk.case({'track': strip(trk), 'q': q}, io[0] == 'pt' and (len(trk['wps']) > 2 or target > total or 0 < target < total))
         chk.count('q:' + q['op'] + ':' + io[0] + (':' + io[1] if io[0] == 'refused' else ''))
+        if q.get('ends_on_waypoint'):
+            chk.count('step-ending-exactly-on-a-waypoint:' + ('overstep' if trk['allow'] else 'no-overstep') + ':' + io[0]
+                      + (':' + io[1] if io[0] == 'refused' else ''))
         if q.get('short_leg'):
             chk.count('short-leg-query:' + trk['kind'] + ':' + io[0])
         if q.get('near_end'):
@@ -589,8 +610,11 @@ def check_tracks(chk: Check, tracks):
                     lo = impl_query(gt2, {'op': 'loc', 'd': target})
                     if bad is None and lo != io:
                         bad = f'step({a!r}, {b!r}) = {io} differs from location({target!r}) = {lo}'
-                elif not (io[1] == 'RCross' and len(trk['wps']) > 2 and not trk['allow']):
-                    bad = f'step({a!r}, {b!r}) inside the track refused ({io[1]})'
+                elif not (io[1] == 'RCross' and not trk['allow'] and any(a < x < target for x in index)):
+                    # the crossing refusal is admissible only when a waypoint lies STRICTLY inside the step
+                    # (C15_cross_refusal_only_when_a_waypoint_is_strictly_inside); ending exactly on one is not crossing it
+                    bad = (f'step({a!r}, {b!r}) inside the track refused ({io[1]}) although no waypoint lies strictly between '
+                           f'{a!r} and {target!r}')
             else:
                 if trk['allow']:
                     bad = (f'step({a!r}, {b!r}) past the end refused ({io[1]}) although overstepping is allowed'
